@@ -168,7 +168,7 @@ def viaMcastIf (h : Host) (bound mcIf : Ip) : Bool :=
   if mcIf != 0 then mcIf == h.ifIp
   else if specific bound then !isLoopback bound else true
 
-/-- The receiving side of the delivery predicate: bound port and address admit the datagram, the group is
+/-- The receiving side of the delivery predicate: bound port and address let the datagram in, the group is
 joined and not left, the source passes the filter (`IP_MULTICAST_ALL = 0`: nobody else's groups count). -/
 def joinedFor (r : Sock) (dst : Addr) (srcIp : Ip) : Bool :=
   r.isOpen && r.kern.name.port == dst.port && (r.kern.name.ip == 0 || r.kern.name.ip == dst.ip)
